@@ -26,8 +26,14 @@ pub enum Ctx {
     Lui,
     Word,
     Csr,
+    /// second operand of an I-type instruction: `addi t0, t1, <lit>`
+    Addi,
+    /// offset of a memory operand: `lw t0, <lit>(sp)`
+    LoadOff,
+    /// offset of the two-operand jalr form: `jalr t1, <lit>`
+    JalrOff,
 }
-const CTXS: [Ctx; 4] = [Ctx::Li, Ctx::Lui, Ctx::Word, Ctx::Csr];
+const CTXS: [Ctx; 7] = [Ctx::Li, Ctx::Lui, Ctx::Word, Ctx::Csr, Ctx::Addi, Ctx::LoadOff, Ctx::JalrOff];
 
 pub struct C17 {
     lits: Vec<Lit>,
@@ -209,11 +215,15 @@ impl C17 {
             Ctx::Lui => "main:\n    lui t0, ",
             Ctx::Word => "main:\n    li a7, 10\n    ecall\n.data\nv: .word ",
             Ctx::Csr => "main:\n    csrr t0, ",
+            Ctx::Addi => "main:\n    addi t0, t1, ",
+            Ctx::LoadOff => "main:\n    lw t0, ",
+            Ctx::JalrOff => "main:\n    jalr t1, ",
         };
         let tail = match ctx {
             // a data directive that ends the file is lost altogether (a C07 matter),
             // so something follows it here
             Ctx::Word => "\n.text\n",
+            Ctx::LoadOff => "(sp)\n    li a7, 10\n    ecall\n",
             _ => "\n    li a7, 10\n    ecall\n",
         };
         (format!("{head}{lit}{tail}"), head.chars().count())
@@ -266,7 +276,7 @@ impl C17 {
         acc.count("traces", 1);
         // expected acceptance
         let expect_ok: Option<i128> = match (lit.value, ctx) {
-            (Some(v), Ctx::Li | Ctx::Word) if fits32(v) => Some(v),
+            (Some(v), Ctx::Li | Ctx::Word | Ctx::Addi | Ctx::LoadOff | Ctx::JalrOff) if fits32(v) => Some(v),
             (Some(v), Ctx::Lui) if (0..(1i128 << 20)).contains(&v) => Some(v),
             (Some(v), Ctx::Csr) if (0..4096).contains(&v) => Some(v),
             _ => None,
@@ -276,6 +286,11 @@ impl C17 {
         // csr numbers beyond 12 bits are left alone.
         let no_verdict = matches!((lit.value, ctx), (Some(v), Ctx::Csr) if !(0..4096).contains(&v) && fits32(v))
             || matches!((lit.value, ctx), (Some(v), Ctx::Lui) if v < 0 && fits32(v));
+        // behind `lw t0, ` a spelling that is an identifier is a label, not a literal
+        let no_verdict = no_verdict
+            || (ctx == Ctx::LoadOff
+                && lit.value.is_none()
+                && lit.spelling.trim_start_matches('-').chars().next().map(|c| c.is_alphabetic() || c == '_' || c == '.' || c == '$').unwrap_or(true));
         if no_verdict {
             acc.count("no_verdict", 1);
             return;
@@ -287,7 +302,9 @@ impl C17 {
             .collect();
         // find the node of interest
         let node = run.nodes.iter().find(|n| match (ctx, n) {
-            (Ctx::Li | Ctx::Lui, ParserNode::IArith(x)) => x.rd.get() == &Register::X5,
+            (Ctx::Li | Ctx::Lui | Ctx::Addi, ParserNode::IArith(x)) => x.rd.get() == &Register::X5,
+            (Ctx::LoadOff, ParserNode::Load(_)) => true,
+            (Ctx::JalrOff, ParserNode::JumpLinkR(_)) => true,
             (Ctx::Csr, ParserNode::Csr(_)) => true,
             (Ctx::Word, ParserNode::Directive(d)) => matches!(d.dir, DirectiveType::Data(..)),
             _ => false,
@@ -310,6 +327,8 @@ impl C17 {
                 let got: Option<u32> = match node {
                     Some(ParserNode::IArith(x)) => Some(x.imm.get().value() as u32),
                     Some(ParserNode::Csr(x)) => Some(x.csr.get().value()),
+                    Some(ParserNode::Load(x)) => Some(x.imm.get().value() as u32),
+                    Some(ParserNode::JumpLinkR(x)) => Some(x.imm.get().value() as u32),
                     Some(ParserNode::Directive(d)) => match &d.dir {
                         DirectiveType::Data(_, vals) if vals.len() == 1 => {
                             Some(vals[0].get().value() as u32)
